@@ -172,7 +172,7 @@ func TestVerif_C19_Blip(t *testing.T) {
 				if exp != nil {
 					wire = vfC19WithExtras(body, "_exp", exp)
 				}
-				text, esc := vfC19Ser(wire, st)
+				text, esc := vfC19SerDoc(wire, st)
 				if exp != nil && !strings.Contains(text, `"_exp"`) {
 					classes = append(classes, "_exp-key-escaped")
 					if knownBlipEscaped {
@@ -232,38 +232,43 @@ func TestVerif_C19_Blip(t *testing.T) {
 			return r
 		}
 		kit.Guard(rt, "C19", "Blip", func() string { return strings.Join(ops, "; ") }, func() {
+			// every written revision is awaited on the pull side before the next write: the tester
+			// client asserts when revisions of one document reach it out of order
+			pullCheck := func(r *vfC19Rev) {
+				_, cv, code := e.current(docID)
+				if code != 200 {
+					c.fail("GET of the written document answers %d", code)
+				}
+				raw := b.pulled(docID, r.RevID, cv)
+				ops = append(ops, fmt.Sprintf("BLIP pull rev %s", r.RevID))
+				what := "BLIP-pull"
+				v := c.raw(what, raw)
+				if v.Kind != 'o' {
+					c.fail("%s: body is not an object: %s", what, vfC19Clip(string(raw)))
+				}
+				for _, k := range []string{"_id", "_rev", "_exp", "_deleted", "_removed", "_revisions", "_cv", "_sync"} {
+					if v.Get(k) != nil {
+						c.fail("%s: pulled body carries %s: %s", what, k, vfC19Clip(string(raw)))
+					}
+				}
+				if d := vfC19Equal(r.Body, v.Without(vfC19BlipAdded)); d != "" {
+					c.fail("%s: body written by %s differs from the pulled body: %s\nwritten: %s\npulled:  %s", what, r.Path, d, r.Text, vfC19Clip(string(raw)))
+				}
+				c.reads++
+				c.paths[what] = true
+			}
 			rev1 := writeOne(1, !update, nil)
+			pullCheck(rev1)
 			current, old := rev1, []*vfC19Rev(nil)
 			if update {
 				rev2 := writeOne(2, true, rev1)
+				pullCheck(rev2)
 				current, old = rev2, []*vfC19Rev{rev1}
 				rev1.HasExp, rev2.HasExp = false, false
 				classes = append(classes, "shape=update")
 			} else {
 				classes = append(classes, "shape=single")
 			}
-			// BLIP pull
-			_, cv, code := e.current(docID)
-			if code != 200 {
-				c.fail("GET of the written document answers %d", code)
-			}
-			raw := b.pulled(docID, current.RevID, cv)
-			ops = append(ops, fmt.Sprintf("BLIP pull rev %s", current.RevID))
-			what := "BLIP-pull"
-			v := c.raw(what, raw)
-			if v.Kind != 'o' {
-				c.fail("%s: body is not an object: %s", what, vfC19Clip(string(raw)))
-			}
-			for _, k := range []string{"_id", "_rev", "_exp", "_deleted", "_removed", "_revisions", "_cv", "_sync"} {
-				if v.Get(k) != nil {
-					c.fail("%s: pulled body carries %s: %s", what, k, vfC19Clip(string(raw)))
-				}
-			}
-			if d := vfC19Equal(current.Body, v.Without(vfC19BlipAdded)); d != "" {
-				c.fail("%s: body written by %s differs from the pulled body: %s\nwritten: %s\npulled:  %s", what, current.Path, d, current.Text, vfC19Clip(string(raw)))
-			}
-			c.reads++
-			c.paths[what] = true
 			// REST reads of what BLIP wrote
 			c.readAll(current, []*vfC19Rev{current}, old)
 		})
